@@ -18,6 +18,11 @@ CHECKS = {
    text="On each chain state every variant block (proof of work above target, compact-target edge encodings, wrong retarget bits for clamped and unclamped timespans, timestamps at MTP / MTP+1 / now+7200 / now+7201, ten block versions incl. negative ones at every gate height, coinbase script lengths and BIP34 pushes, coinbase count/position, lock-time finality at height and time cut-offs, merkle mutation (CVE-2012-2459, inner pair), witness commitment shapes and nonce sizes, weight 4000000/4000004) is delivered, alone and followed by a valid block; a block that violates a rule must never be accepted or stored, and a refusal must leave tip and UTXO unchanged.",
    note="trusted: refchain.CheckBlock written from Core's rules; retarget arithmetic in unbounded integers (equals Core for limits <= 2^234); clock injected by rewriting the time import of lib/chain/block_check.go in a build overlay",
    design="3/C05"),
+ "C11": dict(dir="c11", level="model_checking", engine="vsched",
+   technique="stateless model checking of the implementation: gocoin's own goroutines run under a cooperative scheduler (typed source rewrite of go/chan/select/map-range + sync/atomic shims injected by build overlay); every schedule up to a deviation bound is executed (delay-bounded DFS), oracle = reference model + schedule independence",
+   text="For each scenario (block with parallel script checks and UTXO workers colliding in one bucket; failing script with early return; snapshot save racing with the next block, HurryUp, reorg and Close) every interleaving of the real goroutines with at most 2 (quick, commit scenarios) / 1 (quick, snapshot scenarios) / 3 and 2 (thorough) non-default decisions is run on the real code; no schedule may panic, deadlock, change a verdict, or leave a tip/UTXO set (in memory, seen by the caller right after the call, or reloaded from the files written) different from the reference.",
+   note="scheduling points are synchronisation operations (locks, WaitGroup.Wait, atomics, channel ops, select arms, map order): sound for data-race-free code; plain memory races are not visible to this engine; RWMutex writer preference not modelled; bounds reported per scenario",
+   design="2.3, 3/C11"),
 }
 
 ALL = ["C%02d" % i for i in range(1, 21)]
@@ -51,6 +56,8 @@ def main():
             "add_only": True,
         },
         "engines": [
+            {"name": "vsched", "path": "/verif/vshim, /verif/tools/vrewrite, /verif/internal/explore", "serves_properties": [p for p in sorted(CHECKS) if CHECKS[p]["engine"] == "vsched"],
+             "kind_free_text": "controlled cooperative scheduler over the real goroutines + deviation-bounded stateless DFS, sharded over worker processes"},
             {"name": "seqx-state", "path": "/verif/checks", "serves_properties": [p for p in sorted(CHECKS) if CHECKS[p]["engine"] == "seqx-state"],
              "kind_free_text": "explicit-state / bounded-exhaustive history enumeration on the real objects, reference model as oracle"},
         ],
